@@ -2,7 +2,7 @@
 # trial_seeds.sh <seed-name>...: for each seed, apply it in a scratch worktree (/tmp/repo2) of /repo HEAD and run the
 # property's check there (VERIF_REPO), quick tier; result summary is written to seeded/<seed>/trial_<tier>.log
 TIER=${TIER:-quick}
-W=/tmp/repo2
+W=${W:-/tmp/repo2}
 for s in "$@"; do
   S=/verif/seeded/$s
   P=${s%%-*}
